@@ -342,6 +342,10 @@ pub fn check_exec_named(source: &str, tgt: Tgt, arg_seed: u64, vectors: usize, e
                     labels.push("e2_fuel".into());
                     continue;
                 }
+                Err(irsem::Stop::Unsupported(m)) if m.contains("missing argument without a default") => {
+                    // the IR itself calls a function with fewer arguments than it has parameters without defaults
+                    return Verdict::Fail { signature: "ir:missing-default-argument".into(), detail: format!("function {}: a call in the typed IR omits an argument for which the callee records no default value\n--- source\n{}", q, source) };
+                }
                 Err(e) => {
                     labels.push(format!("e2_unsupported:{}", norm(&format!("{:?}", e))));
                     break;
